@@ -128,7 +128,7 @@ func main() {
 }
 
 func c16(c *Ctx) {
-	c.Rule = "chunk sets of a file: exhaustively every subset of unit cells of files of size <= 10 (quick) / 12 (thorough) with every merge of adjacent received cells into chunks, listed in random order; random large files (sizes up to 2^32-1) with gaps at start/middle/end, adjacent chunks, single-byte gaps, 255/256/300 gaps; out-of-domain inputs (overlaps, zero-length chunks, stale CurrentSize, uint32 wrap) for the correspondence only; the same situations over a real connection (0x1210, chunks, 0x1212, resend, 0x1212). A case is non-trivial when at least one chunk was received and at least one byte is missing; distinct = distinct request lines"
+	c.Rule = "chunk sets of a file: exhaustively every subset of unit cells of files of size <= 10 (quick) / 12 (thorough) with every merge of adjacent received cells into chunks, listed in random order; random large files (sizes up to 2^32-1) with gaps at start/middle/end, adjacent chunks, single-byte gaps, 255/256/300 gaps; out-of-domain inputs (overlaps, zero-length chunks, stale CurrentSize, uint32 wrap) for the correspondence only; the same situations over a real connection (0x1210, chunks, 0x1212, resend, 0x1212): equal-cell files with duplicated lost and received cells, 2019 headers, merged writes, up to 120 gaps, and `over` sessions of 127..255 gaps whose reply frames are handed to the real decoder (known finding C16/socket/reply-over-1023). A case is non-trivial when at least one chunk was received and at least one byte is missing; distinct = distinct request lines"
 	rng := c.Rng
 	shuffle := func(ch []seg) []seg {
 		out := append([]seg{}, ch...)
